@@ -149,6 +149,10 @@ fn integer_config_parse_contract() {
     let mut bs = Bitstream::new(&data[..len]);
     if bs.skip_bits(off).is_err() { return; }
     let r = IntegerConfig::parse(&mut bs, las);
+    if let Ok(c) = &r {
+        // the invariant every later use relies on (read_uint_prefilled computes split_exponent - (msb + lsb) and 1 << msb)
+        assert!(cfg_wf(c), "[C01,C04] whatever parse returns satisfies msb_in_token + lsb_in_token <= split_exponent <= 15 and split == 1 << split_exponent");
+    }
     match (spec_integer_config(&view, off, las), &r) {
         (CfgSpec::Ok { se, msb, lsb, used }, Ok(c)) => {
             assert!(c.split_exponent == se && c.msb_in_token == msb && c.lsb_in_token == lsb,
@@ -331,9 +335,10 @@ fn finalize_contract() {
 // Preconditions from outside the step:
 //   min_length >= 3                         Lz77::parse, lib.rs:325: U32(3, 4, 5 + u(2), 9 + u(8))
 //   num_decoded < u32::MAX                  (a stream of 2^32 - 1 symbols; `num_decoded += 1` would overflow -- noted, not claimed)
-//   dist_multiplier <= 2^24                 callers pass the largest channel width of one modular stream
-//                                           (jxl-modular image.rs:460); NOT verified there. The arithmetic
-//                                           `offset + dist_multiplier as i32 * dist` needs dist_multiplier <= 306_783_377.
+//   dist_multiplier <= 306_783_377          exactly the range in which `offset + dist_multiplier as i32 * dist`
+//                                           (dist <= 7, offset <= 8) does not overflow i32. Callers pass the largest
+//                                           channel width of one modular stream (jxl-modular image.rs:460), which is
+//                                           far below; that bound is NOT verified there.
 //   cluster < configs.len(), clusters non-empty, every cluster id < configs.len()   (read_clusters: no holes)
 // The symbol reader is replaced by a stub with the ASSUMED contract "refills the bit buffer, consumes <= 16
 // bits, returns an arbitrary token <= 65535 or an error" -- what ans.rs / prefix.rs read_symbol obligations
@@ -378,7 +383,7 @@ fn lz77_step_contract() {
     let min_length: u32 = kani::any();
     kani::assume(min_length >= 3 && min_length <= 9 + 255);
     let dist_multiplier: u32 = kani::any();
-    kani::assume(dist_multiplier <= 1 << 24);
+    kani::assume(dist_multiplier <= 306_783_377);
     let c0: u8 = kani::any();
     let c1: u8 = kani::any();
     let cluster: u8 = kani::any();
